@@ -78,10 +78,12 @@ pub enum Cmd {
     Wait(u8),
     /// pseudo command: the server is started with small channel capacities (hook ADLT_VERIF_CHANNEL_CAP)
     Cap(u8),
+    /// the next n commands that do not change the session state are sent without waiting for the replies in between
+    Burst(u8),
 }
 
 fn cmd(xl: bool) -> impl Strategy<Value = Cmd> {
-    let open_kinds: Vec<u8> = if xl { (0u8..22).collect() } else { (0u8..22).filter(|k| *k != 10).collect() };
+    let open_kinds: Vec<u8> = if xl { (0u8..23).collect() } else { (0u8..23).filter(|k| *k != 10).collect() };
     prop_oneof![
         4 => prop::sample::select(open_kinds).prop_map(Cmd::Open),
         2 => Just(Cmd::Close),
@@ -97,13 +99,14 @@ fn cmd(xl: bool) -> impl Strategy<Value = Cmd> {
         1 => (0u8..6).prop_map(Cmd::Fs),
         1 => (0u8..6).prop_map(Cmd::Garbage),
         1 => (0u8..4).prop_map(Cmd::Wait),
+        3 => (0u8..6).prop_map(Cmd::Burst),
     ]
 }
 
 /// mostly: open something, create some streams, then arbitrary commands
 fn history(xl: bool) -> impl Strategy<Value = Vec<Cmd>> {
     (
-        prop::option::weighted(0.8, prop_oneof![4 => 0u8..7, 1 => Just(11u8), 2 => prop::sample::select(if xl { (0u8..22).collect::<Vec<u8>>() } else { (0u8..22).filter(|k| *k != 10).collect() })]),
+        prop::option::weighted(0.8, prop_oneof![4 => 0u8..7, 1 => Just(11u8), 2 => prop::sample::select(if xl { (0u8..23).collect::<Vec<u8>>() } else { (0u8..23).filter(|k| *k != 10).collect() })]),
         prop::collection::vec(prop_oneof![3 => (0u8..5).prop_map(Cmd::Stream), 1 => (0u8..5).prop_map(Cmd::Query), 1 => Just(Cmd::Resume)], 0..4),
         prop::collection::vec(cmd(xl), 1..22),
         prop::option::weighted(0.35, 0u8..3),
@@ -154,7 +157,7 @@ fn one_pass_history() -> impl Strategy<Value = Vec<Cmd>> {
 /// sessions in which the stages of the server's pipeline block on full channels (small capacities through the
 /// hook, paused consumer): pause/wait/close/reopen orders are covered densely
 fn backpressure_history() -> impl Strategy<Value = Vec<Cmd>> {
-    let open = || prop::sample::select(vec![2u8, 2, 3, 6, 6, 11, 4, 19]).prop_map(Cmd::Open);
+    let open = || prop::sample::select(vec![2u8, 2, 3, 6, 6, 11, 4, 19, 22]).prop_map(Cmd::Open);
     (
         0u8..3,
         open(),
@@ -222,8 +225,24 @@ fn check(cmds: &Vec<Cmd>, rep: &mut Rep) -> Result<(), String> {
     let mut opened_large_at: Option<std::time::Instant> = None;
     let reply_timeout = Duration::from_secs(20);
 
+    let mut burst_left = 0usize;
+    let mut bursts = 0usize;
     let result = (|| -> Result<(), String> {
+        let mut pending: Vec<(usize, String, &str)> = vec![];
+        // replies to commands that were sent in a burst: one each, in order, of the expected kind
+        fn drain(c: &mut Client, pending: &mut Vec<(usize, String, &str)>, timeout: Duration) -> Result<(), String> {
+            for (ci, text, expect) in pending.drain(..) {
+                let r = c.wait_reply(timeout).map_err(|e| format!("command #{} {:?} (sent in a burst) got no reply: {}", ci, text, e))?;
+                let kind = reply_kind(&r);
+                ensure!(kind != "OTHER" && expect.split('|').any(|e| e == kind), "command #{} {:?} (sent in a burst): reply kind {} but {} expected: {:?}", ci, text, kind, expect, short(&r));
+            }
+            Ok(())
+        }
         for (ci, cm) in cmds.iter().enumerate() {
+            if !pending.is_empty() && !matches!(cm, Cmd::Garbage(0..=3) | Cmd::Fs(_) | Cmd::PluginCmd(_) | Cmd::BinSearch(..) | Cmd::Search(..)) {
+                burst_left = 0;
+                drain(&mut c, &mut pending, reply_timeout)?;
+            }
             let pick = |k: u8, m: &Model| -> (String, bool, bool) {
                 // (id text, live, one_pass stream or query: the command may be refused)
                 match k {
@@ -244,6 +263,10 @@ fn check(cmds: &Vec<Cmd>, rep: &mut Rep) -> Result<(), String> {
                     continue;
                 }
                 Cmd::Cap(_) => continue,
+                Cmd::Burst(n) => {
+                    burst_left = 1 + *n as usize % 6;
+                    continue;
+                }
                 Cmd::Open(k) => {
                     let j = match k {
                         0 | 1 => format!(r#"{{"files":["{}"]}}"#, fp("s.dlt")),
@@ -266,9 +289,10 @@ fn check(cmds: &Vec<Cmd>, rep: &mut Rep) -> Result<(), String> {
                         19 => format!(r#"{{"files":["{}"]}}"#, fp("z.zip")),
                         20 => format!(r#"{{"files":["{}"]}}"#, fp("junk.zip")),
                         21 => format!(r#"{{"files":["{}","{}"]}}"#, fp("missing.zip"), fp("z.zip/**/*.dlt")),
+                        22 => format!(r#"{{"files":["{}"],"plugins":[{{"name":"FileTransfer","allowSave":true}},{{"name":"Rewrite","rewrites":[]}},{{"name":"FileTransfer","allowSave":false,"apid":"XYZ"}},{{"name":"Rewrite","rewrites":[]}}]}}"#, fp("m.dlt")),
                         _ => format!(r#"{{"files":["{}"]}}"#, fp("xl.dlt")),
                     };
-                    let valid = *k <= 6 || *k == 10 || *k == 11 || *k == 16 || *k == 17;
+                    let valid = *k <= 6 || *k == 10 || *k == 11 || *k == 16 || *k == 17 || *k == 22;
                     // files without messages, missing files and archives: accepted or refused, the model follows the reply
                     let either = [13u8, 14, 15, 19, 20, 21].contains(k);
                     (format!("open {}", j), if m.open { "err" } else if either { "ok|err" } else if !valid { "err" } else { "ok" }, "open")
@@ -413,6 +437,18 @@ fn check(cmds: &Vec<Cmd>, rep: &mut Rep) -> Result<(), String> {
                     (t.to_string(), e, if *k == 4 { "stream" } else if *k == 5 { "close" } else { "" })
                 }
             };
+            let neutral = matches!(cm, Cmd::Garbage(0..=3) | Cmd::Fs(_) | Cmd::PluginCmd(_) | Cmd::BinSearch(..) | Cmd::Search(..));
+            if burst_left > 0 && neutral {
+                c.send(&text).map_err(|e| format!("command #{} {:?}: {}", ci, text, e))?;
+                pending.push((ci, text, expect));
+                burst_left -= 1;
+                if pending.len() >= 2 {
+                    bursts += 1;
+                }
+                continue;
+            }
+            burst_left = 0;
+            drain(&mut c, &mut pending, reply_timeout)?;
             let is_close = word == "close";
             if is_close && m.open {
                 if let Some(t) = opened_large_at {
@@ -452,7 +488,7 @@ fn check(cmds: &Vec<Cmd>, rep: &mut Rep) -> Result<(), String> {
                         };
                         paused_since = if *k == 4 { Some(std::time::Instant::now()) } else { None };
                         m.resumed = false;
-                        m.plugins = *k == 11;
+                        m.plugins = *k == 11 || *k == 22;
                         if [3u8, 6, 10].contains(k) {
                             opened_large_at = Some(std::time::Instant::now());
                         } else {
@@ -503,6 +539,7 @@ fn check(cmds: &Vec<Cmd>, rep: &mut Rep) -> Result<(), String> {
                 }
             }
         }
+        drain(&mut c, &mut pending, reply_timeout)?;
         // no stray reply, connection and process alive
         let extra = c.pump(Duration::from_millis(150));
         ensure!(extra.is_empty(), "unsolicited reply frame(s) at the end: {:?}", extra);
@@ -531,6 +568,7 @@ fn check(cmds: &Vec<Cmd>, rep: &mut Rep) -> Result<(), String> {
     rep.label_if(close_while_paused, "close_while_paused");
     rep.label_if(cmd_to_query, "command_to_query_id");
     rep.label_if(cap.is_some(), "small_channels");
+    rep.label_if(bursts > 0, "commands_sent_in_a_burst");
     rep.label_if(cmds.iter().any(|c| matches!(c, Cmd::Open(19 | 20 | 21))), "archive_open");
     let one_pass_resumed = cmds.iter().any(|c| matches!(c, Cmd::Open(4))) && cmds.iter().any(|c| matches!(c, Cmd::Resume)) && cmds.iter().any(|c| matches!(c, Cmd::Stream(3)));
     rep.nontrivial = malformed_to_live || close_while_parsing || (close_while_paused && cap.is_some()) || one_pass_resumed;
@@ -551,7 +589,7 @@ pub fn def(tier: Tier) -> PropertyDef {
         id: "C15",
         rule: "stateful histories of 1..25 commands from a grammar over open/close/pause/resume/stream/query/stop/stream_change_window/stream_binary_search/stream_search/plugin_cmd/fs/garbage/waits with valid and invalid forms (missing/extra arguments, non-numeric, unknown and stopped ids, malformed JSON, wrong JSON types, inverted/huge windows), files: 50, 5000 and 60000 messages (parser throttled through the adlt_verif schedule hook so commands land while parsing runs), two files sorted, collect modes all/none/one_pass_streams (thorough: 2.2M messages); model {open, mode, live ids} updated from the replies; after every command exactly one reply of the kind the model implies, naming the command; no stray reply; process alive, no panic on stderr, connection open; final close completes and a new open succeeds. Non-trivial: a malformed command addressed to a live stream or a close within 600 ms after opening a big file.",
         assumptions: vec!["a missing reply within 20 s (60 s for close) counts as violation (the server polls every <= 100 ms)", "in one_pass_streams sessions a stream request after resume may be refused or accepted depending on whether messages were already drained"],
-        subs: vec![sub("histories", tier.pick(400, 12_000), history(xl), check).rates(&[("malformed_to_live_stream", 0.1), ("close_while_parsing", 0.03), ("one_pass_session", 0.05), ("command_to_query_id", 0.02), ("archive_open", 0.03), ("small_channels", 0.2)]).shrink_iters(60).slow().boxed(),
+        subs: vec![sub("histories", tier.pick(400, 12_000), history(xl), check).rates(&[("malformed_to_live_stream", 0.1), ("close_while_parsing", 0.03), ("one_pass_session", 0.05), ("command_to_query_id", 0.02), ("archive_open", 0.03), ("small_channels", 0.2), ("commands_sent_in_a_burst", 0.03)]).shrink_iters(60).slow().boxed(),
             sub("one_pass_sessions", tier.pick(160, 5_000), one_pass_history(), check).rates(&[("one_pass_session", 0.9)]).shrink_iters(60).slow().boxed(),
             sub("backpressure_sessions", tier.pick(200, 6_000), backpressure_history(), check).rates(&[("small_channels", 0.9), ("close_while_paused", 0.3)]).shrink_iters(60).slow().boxed()],
         workers: 16,
